@@ -27,9 +27,17 @@ MAIN = {
     "recv": "tick(0)\ntick(0)\ntick(0)\nc := chan()\nv := <-c\nfor { tick(0) }",
     "chaniter": "tick(0)\ntick(0)\ntick(0)\nc := chan()\nfor _, v := range c { tick(0) }\nfor { tick(0) }",
     "sleep": "tick(0)\ntick(0)\ntick(0)\nimport time\ntime.sleep(30)\nfor { tick(0) }",
+    "sendfull": "tick(0)\ntick(0)\ntick(0)\nc := chan(2)\nc <- 1\nc <- 2\nc <- 3\nfor { tick(0) }",
+    "sendmeth": "tick(0)\ntick(0)\ntick(0)\nc := chan()\nc.send(1)\nfor { tick(0) }",
+    "sendfullmeth": "tick(0)\ntick(0)\ntick(0)\nc := chan(1)\nc.send(1)\nc.send(2)\nfor { tick(0) }",
+    "recvmeth": "tick(0)\ntick(0)\ntick(0)\nc := chan(1)\nv := c.receive()\nfor { tick(0) }",
+    "iterbuf": "tick(0)\ntick(0)\ntick(0)\nc := chan(2)\nc <- 1\nfor _, v := range c { tick(0) }\nfor { tick(0) }",
+    "tryhandler": "try(func() { error(\"x\") }, func(e) { for { tick(0) } })\nfor { tick(0) }",
+    "defercb": "func f() {\ndefer func() { for { tick(0) } }()\nreturn 1\n}\nf()\nfor { tick(0) }",
     "wait": "tick(0)\ntick(0)\ntick(0)\nt := spawn(func() { for { tick(7) } })\nt.wait()\nfor { tick(0) }",
 }
-BODY = {"loop": "for { tick(%d) }", "sleepy": "for { tick(%d)\n time.sleep(0.002) }", "recv": "tick(%d)\ncq := chan()\nvq := <-cq"}
+BODY = {"loop": "for { tick(%d) }", "sleepy": "for { tick(%d)\n time.sleep(0.002) }", "recv": "tick(%d)\ncq := chan()\nvq := <-cq",
+        "sendfull": "tick(%d)\ncq := chan(1)\ncq <- 1\ncq <- 2", "sendthenloop": "cq := chan(1)\ncq <- 1\nfor { tick(%d) }"}
 
 
 def script(s):
@@ -114,6 +122,14 @@ def run(cx):
             suspects.append((r_["id"], why))
     # quorum: a suspect scenario is re-run 3 times alone (less parallelism, longer settle)
     if suspects:
+        # one representative per (main form or spawn, kind of observation) first; at most 24 re-executions x 3
+        seen_keys, first, rest = set(), [], []
+        for i, why in suspects:
+            sc_ = rows[i]["scen"]
+            key = (sc_["main"] if sc_["tree"]["depth"] == 0 else "spawn", why[:40])
+            (rest if key in seen_keys else first).append((i, why))
+            seen_keys.add(key)
+        suspects = (first + rest)[:24]
         rein = cx.path("re.ndjson")
         rer = []
         for i, _ in suspects[:60]:
@@ -146,8 +162,8 @@ def run(cx):
         "evaluations": nrun, "distinct_nontrivial": len([1 for r_ in rows if r_["scen"]["tree"]["depth"] > 0 or r_["scen"]["main"] not in ("for", "for3")]),
         "traces_validated_against_impl": nrun, "scenarios": len(rows), "max_spawn_depth": maxd, "exhaustive": True,
         "prompt_return_bound_ms": bound,
-        "rule": "VMRunScen: 15 main forms (loops, recursion, callbacks in list.map/each/filter/sorted/try, blocked send / receive / channel "
-                "iteration / sleep / thread wait) x spawn trees (depth 0..D, 3 spawn forms, 3 goroutine bodies) x cancellation instants "
+        "rule": "VMRunScen: 22 main forms (loops, recursion, callbacks in list.map/each/filter/sorted/try/try-handler/defer, blocked send / receive (statement and method forms, unbuffered and full buffered) / channel "
+                "iteration / sleep / thread wait) x spawn trees (depth 0..D, 3 spawn forms, 5 goroutine bodies) x cancellation instants "
                 "(deadline, 3rd tick, 40th tick), all enumerated by TLC; non-trivial = scenario with a spawned goroutine or a non-plain-loop main",
     })
     cx.assumptions += ["promptness bound is generous (3 s) and a timing observation counts only when reproduced in 2 of 3 isolated re-runs",
